@@ -215,6 +215,7 @@ class C09Run(StateRun):
             elif late:
                 self.port_reused_early = True
                 self.sim.probe('local-port-reused-before-stream-events-delivered')
+                free = late + [p for p in free if p not in late]
             if free:
                 self.free_sports.remove(free[0])
                 self.sim.probe('via-connection-reuses-local-port')
